@@ -22,7 +22,7 @@ import (
 // mode => ref says not Dead. (Only this direction; C08 is the converse.)
 func init() { Registry["C09"] = &Check{Setup: c09Setup, Run: c09Run} }
 
-var sigma09 = []byte("{}[],:\"\\1a -.eu")
+var sigma09 = []byte("{}[],:\"\\1a -.eu\n")
 
 // c09Eval: Limit semantics as in Detect. Ints[0]==1 => fast path allowed.
 func c09Eval(cs *core.Case) (bool, string, string) {
